@@ -59,6 +59,8 @@ Over(v) == LET D == Lcm(Lcm(v[1][2], v[2][2]), v[3][2])
 MatIVec(M, w) == [i \in 1..3 |-> M[i][1] * w[1] + M[i][2] * w[2] + M[i][3] * w[3]]
 MatRVec(M, v) == LET w == Over(v)  y == MatIVec(M, w.num) IN [i \in 1..3 |-> RNorm(y[i], w.den)]
 ScalarTensor(a) == << <<a, 0, 0>>, <<0, a, 0>>, <<0, 0, a>> >>
+\* the part of a tensor acting in the plane of a 2D grid (plane problem: third row and column dropped)
+InPlane(A, nd) == IF nd = 3 THEN A ELSE [i \in 1..3 |-> [j \in 1..3 |-> IF i = 3 \/ j = 3 THEN 0 ELSE A[i][j]]]
 
 \* Hooke's law for a constant displacement gradient: sigma = mu (G + G^T) + lambda tr(G) I   (integer matrix)
 Sigma(mu, lam, G) == [i \in 1..3 |-> [j \in 1..3 |-> mu * (G[i][j] + G[j][i]) + (IF i = j THEN lam * Tr(G) ELSE 0)]]
